@@ -1101,21 +1101,33 @@ func Retract(vm *VM, t Term, k Cont, env *Env) *Promise {
 		return Error(permissionError(operationModify, permissionTypeStaticProcedure, pi.Term(), env))
 	}
 
-	deleted := 0
 	ks := make([]func(context.Context) *Promise, len(u.clauses))
 	for i, c := range u.clauses {
-		i := i
+		c := c
 		raw := rulify(c.raw, env)
 		ks[i] = func(_ context.Context) *Promise {
 			return Unify(vm, t, raw, func(env *Env) *Promise {
-				j := i - deleted
-				u.clauses, u.clauses[len(u.clauses)-1] = append(u.clauses[:j], u.clauses[j+1:]...), clause{}
-				deleted++
-				return k(env)
+				// The database may have changed since the call: find the clause itself, not its old position.
+				for j := range u.clauses {
+					if !sameClause(&u.clauses[j], &c) {
+						continue
+					}
+					u.clauses, u.clauses[len(u.clauses)-1] = append(u.clauses[:j], u.clauses[j+1:]...), clause{}
+					return k(env)
+				}
+				return Bool(false) // Already removed by someone else.
 			}, env)
 		}
 	}
 	return Delay(ks...)
+}
+
+// sameClause reports whether a and b are one and the same stored clause, not merely equal ones.
+func sameClause(a, b *clause) bool {
+	if len(a.bytecode) > 0 && len(b.bytecode) > 0 {
+		return &a.bytecode[0] == &b.bytecode[0]
+	}
+	return id(a.raw) == id(b.raw)
 }
 
 // Abolish removes the procedure indicated by pi from the database.
